@@ -42,6 +42,10 @@ func main() {
 	if len(os.Args) >= 6 && os.Args[1] == "-child-filestore" {
 		n, _ := strconv.Atoi(os.Args[3])
 		lim, _ := strconv.Atoi(os.Args[4])
+		if len(os.Args) >= 7 {
+			l, _ := strconv.Atoi(os.Args[6])
+			childName = longName(l)
+		}
 		childFileStore(os.Args[2], n, lim, os.Args[5])
 		return
 	}
